@@ -259,12 +259,62 @@ def _redundant_guard_pass(fn) -> bool:
     return changed
 
 
+def _ends(stmts) -> bool:
+    return bool(stmts) and isinstance(stmts[-1], (ast.Return, ast.Raise, ast.Continue, ast.Break))
+
+
+def _tail_pass(fn) -> bool:
+    """`if c: x = A  elif d: x = B  else: x = C` followed directly by `return x`: the return goes into every branch
+    (`return A` ...), so that a result computed by a helper is returned by the branch that computed it."""
+    changed = False
+
+    def push(stmts, name):
+        """stmts with the tail `return name` appended (fused with a final `name = E`)."""
+        if _ends(stmts):
+            return stmts
+        if stmts and isinstance(stmts[-1], ast.If):
+            last = stmts[-1]
+            last.body = push(list(last.body), name)
+            last.orelse = push(list(last.orelse), name)
+            return stmts
+        if stmts and isinstance(stmts[-1], ast.Assign) and len(stmts[-1].targets) == 1 and isinstance(stmts[-1].targets[0], ast.Name) and stmts[-1].targets[0].id == name:
+            ret = ast.copy_location(ast.Return(value=stmts[-1].value), stmts[-1])
+            return stmts[:-1] + [ret]
+        anchor = stmts[-1] if stmts else fn
+        ret = ast.copy_location(ast.Return(value=ast.copy_location(ast.Name(id=name, ctx=ast.Load()), anchor)), anchor)
+        return stmts + [ret]
+
+    def fusable(st, name) -> bool:
+        """Some branch of the chain ends in `name = <call>` (otherwise the rewriting buys nothing)."""
+        for body in (st.body, st.orelse):
+            if not body:
+                continue
+            last = body[-1]
+            if isinstance(last, ast.If):
+                if fusable(last, name):
+                    return True
+            elif isinstance(last, ast.Assign) and len(last.targets) == 1 and isinstance(last.targets[0], ast.Name) and last.targets[0].id == name and isinstance(last.value, ast.Call):
+                return True
+        return False
+
+    for owner, field, lst in list(_stmt_lists(fn)):
+        for i in range(len(lst) - 1):
+            st, nxt = lst[i], lst[i + 1]
+            if isinstance(st, ast.If) and isinstance(nxt, ast.Return) and isinstance(nxt.value, ast.Name) and i + 2 == len(lst) and fusable(st, nxt.value.id):
+                st.body = push(list(st.body), nxt.value.id)
+                st.orelse = push(list(st.orelse), nxt.value.id)
+                setattr(owner, field, lst[:i + 1])
+                changed = True
+                break
+    return changed
+
+
 def normalise(repo, finfo, keep=(), helpers=True, aliases=True, comps=True, ifexp=True):
     """(normalised function node, [inlined helper FuncInfo])."""
     used = []
     fn = finfo.node
     if helpers:
-        fn, used = inline.expand(repo, finfo, keep)
+        fn, used = inline.expand(repo, finfo, keep, pre=_tail_pass)
     if fn is finfo.node:
         fn = inline._copy_node(fn)
     _allany_pass(fn)
